@@ -302,13 +302,13 @@ Fixpoint rt_out_of_fuel (x : rtree) : bool :=
   end.
 
 (* ---------------------------------------------------------------- the request *)
-Definition rf_fuel_for (d : rdoc) : nat := ex_fuel_for d.
+Definition rf_fuel_for (s : schema) (d : rdoc) : nat := ex_fuel_for s d.
 
 Definition ref_execute_prepared (s : schema) (d : rdoc) (vars : jmap) (root : str) (w : world) : option eresponse :=
   let cx := {| ex_schema := s; ex_frags := rd_frags d; ex_vars := vars;
                ex_cfuel := ex_cfuel_for d; ex_afuel := ex_afuel_for s d |} in
   let e := {| rf_s := s; rf_frags := rd_frags d; rf_vars := vars; rf_w := w; rf_cx := cx |} in
-  let tree := RtObj (rf_selset (rf_fuel_for d) e root 0 (rd_sels d)) in
+  let tree := RtObj (rf_selset (rf_fuel_for s d) e root 0 (rd_sels d)) in
   if rt_out_of_fuel tree then None else
   match rf_prop (TNonNullNamed root) [] tree with
   | (Some (Some (JObj m)), errs) => Some {| er_data := Some m; er_errors := errs |}
